@@ -74,6 +74,8 @@ GenOK(r) ==
        [] r.api = "pwhash_raw" -> r.out # r.served      \* only a pre-fill of the output buffer is requested; the hash does not depend on it
        [] r.api = "randombytes_buf_0" -> r.reqs = <<>>
 TGen == IsEvent("gen") /\ GenOK(Ev) /\ UNCHANGED vars
+\* life cycle (sys/RandomLifecycle.tla): closing or stirring the generator leaves the installed source installed
+TLife == IsEvent("life") /\ Ev.op \in {"close", "stir"} /\ Ev.active = "verif-scripted" /\ UNCHANGED vars
 
 \* ---------------------------------------------------------------- deterministic generator
 DRGNonce == <<76, 105, 98, 115, 111, 100, 105, 117, 109, 68, 82, 71>>          \* "LibsodiumDRG"
@@ -82,7 +84,7 @@ TDet == /\ IsEvent("det") /\ UNCHANGED vars
                S == StreamIETF(Ev.seed, DRGNonce, <<0, 0>>, mx)
            IN Ev.cat = FoldLeft(LAMBDA acc, n : acc \o SubSeq(S, 1, n), <<>>, Ev.lens)
 
-TraceNext == TBegin \/ TDraw \/ TEnd \/ TGen \/ TDet
+TraceNext == TBegin \/ TDraw \/ TEnd \/ TGen \/ TLife \/ TDet
 TraceSpec == TraceInit /\ [][TraceNext]_tvars
 TraceAccepted ==
   LET d == TLCGet("stats").diameter IN
